@@ -181,7 +181,9 @@ fn gen_broker(rng: &mut Rng) -> Case {
             let j = rng.below(ntopics);
             let a = rng.below(nsubs);
             let h = hof(c, a);
-            match rng.below(14) {
+            match rng.below(15) {
+                // a subscriber may also end because nobody holds it any more (the broker must not count)
+                14 => ops.push(Op::Drop { h }),
                 0 | 1 | 2 | 3 => {
                     next_pub += 1;
                     npubs += 1;
@@ -213,6 +215,18 @@ fn gen_broker(rng: &mut Rng) -> Case {
         }
         clients.push(ops);
     }
+    // finale: the clients let go of every subscriber (a last publication may or may not follow the last delivery)
+    let finale = rng.chance(1, 2);
+    if finale {
+        for c in 0..nclients {
+            for a in 0..nsubs {
+                clients[c].push(Op::Drop { h: hof(c, a) });
+            }
+        }
+        for a in 0..nsubs {
+            clients[0].push(Op::Drop { h: a });
+        }
+    }
     let prompt = rng.chance(5, 10);
     Case {
         program: Program { setup, clients },
@@ -221,6 +235,7 @@ fn gen_broker(rng: &mut Rng) -> Case {
         horizon: 100,
         cancel: None,
         tags: vec![
+            format!("finale={}", finale as u8),
             format!("topics={}", ntopics),
             format!("subs={}", nsubs),
             format!("clients={}", nclients),
@@ -257,6 +272,15 @@ fn gen_children(rng: &mut Rng) -> Case {
         let mut beh = Behaviour::default();
         if rng.chance(1, 6) {
             beh.tick.push(Act::Work(1 + rng.below(3) as u64));
+        }
+        // a `stopped` hook that takes time and / or says goodbye to the children: they are the parent's until its
+        // task has ended, not until it starts stopping
+        if rng.chance(1, 4) {
+            beh.stopped.push(Act::Work(1 + rng.below(3) as u64));
+        }
+        if rng.chance(1, 4) {
+            next_b += 1;
+            beh.stopped.push(Act::SendToChildren { j: rng.below(2), b: next_b });
         }
         let spec = SpawnSpec { k: 0, strat, behaviour: beh, ..default_spec() };
         setup.push(Op::Spawn { a: i, spec, h: i });
